@@ -298,4 +298,19 @@ CLAIMS = {
         "note": "no unbounded claim; abandoning a mutant generator before it is exhausted (which leaves the shared AST mutated) "
                 "is outside the statement and not explored; that each mutant's *behaviour* differs is not checked (only its AST).",
     },
+    "C30": {
+        "category": "other",
+        "text": "Bounded stand-in (not a proof): the real TestCaseExecutor, set up in the generator's order (_patch_random, import "
+                "hook, import), executes every history of 0, 1 and 2 test cases (thorough: + 300 of length 3) out of 10 whose "
+                "code prints, raises, closes sys.stdout/sys.stderr, closes fds 1/2, replaces sys.stdout, disables/enables "
+                "logging, reseeds and consumes the module-level random and two long-lived random.Random instances; after every "
+                "execution sys.stdout/sys.stderr identity and closedness, fds 0-2, the logging disable level and the state of "
+                "randomness.RNG are compared with the state before, and each of 3 probe test cases (random draws, conditional "
+                "exception, printing) must give the same result (timeout flag, exceptions, covered lines, predicates) as after "
+                "the empty history.",
+        "technique": "bounded contract check over enumerated execution histories (threads, OS file descriptors, process-global "
+                     "logging/random state: no function contract in the verifier's subset expresses them)",
+        "note": "no unbounded claim; modules with hidden state of their own are outside the statement; subprocess execution "
+                "is not covered (C31).",
+    },
 }
